@@ -404,4 +404,117 @@ theorem validate_regenerated_from_source (sps : PoolSpec) :
     Gen.FactsC04IR.extractionFailed = false ∧ Gen.FactsC04IR.validateIR sps = validate sps :=
   ⟨by decide, LoadBalance.validate_regenerated_from_source sps⟩
 
+/-! ### second part of the tie (Extension resil): `Gen.FactsC04IRb`
+
+`NewLoadBalancer`, the five constructors, `createLoadBalancer`, `LoadBalancer()` and `useService`,
+re-translated from their bodies on every run. -/
+
+theorem newLoadBalancer_regenerated_from_source (policy : String) (ss : List Server) :
+    Gen.FactsC04IRb.extractionFailed = false ∧ Gen.FactsC04IRb.newLoadBalancerIR policy ss = newLB policy ss :=
+  ⟨by decide, LoadBalance.newLoadBalancer_regenerated_from_source policy ss⟩
+
+/-- every constructor stores the very list it is handed (so `lb.Servers` *is* the published list), and
+the weighted one sums the positive weights only -/
+theorem constructors_regenerated_from_source (ss : List Server) :
+    Gen.FactsC04IRb.extractionFailed = false ∧
+    Gen.FactsC04IRb.newRandomIR ss = (ss, 0) ∧ Gen.FactsC04IRb.newRoundRobinIR ss = (ss, 0) ∧
+    Gen.FactsC04IRb.newIPHashIR ss = (ss, 0) ∧ Gen.FactsC04IRb.newHeaderHashIR ss = (ss, 0) ∧
+    Gen.FactsC04IRb.newWeightedIR ss = (ss, totalWeight ss) :=
+  ⟨by decide, (LoadBalance.newPlain_regenerated_from_source ss).1, (LoadBalance.newPlain_regenerated_from_source ss).2.1,
+    (LoadBalance.newPlain_regenerated_from_source ss).2.2.1, (LoadBalance.newPlain_regenerated_from_source ss).2.2.2,
+    LoadBalance.newWeighted_regenerated_from_source ss⟩
+
+/-- `createLoadBalancer` publishes exactly one fresh balancer = `NewLoadBalancer(spec or {}, servers)`
+(the model's `step (.store ss)`); `LoadBalancer()` returns the value of its one atomic load. -/
+theorem createLoadBalancer_regenerated_from_source (lbspec : Option String) (ss : List Server) (cur : LB) :
+    Gen.FactsC04IRp.extractionFailed = false ∧
+    Gen.FactsC04IRp.createLoadBalancerIR lbspec ss = some (newLB (lbspec.getD "") ss) ∧
+    Gen.FactsC04IRp.loadBalancerIR cur = cur :=
+  ⟨by decide, LoadBalance.createLoadBalancer_regenerated_from_source lbspec ss, rfl⟩
+
+/-- up to the order of the published list (which no clause of the property constrains): `srt` is an
+arbitrary re-ordering, e.g. a `sort.Slice`, should the code contain one -/
+theorem useService_regenerated_from_source (srt : List Server → List Server) (hsrt : ∀ l, (srt l).Perm l)
+    (sps : PoolSpec) (insts : List Instance) :
+    Gen.FactsC04IRp.extractionFailed = false ∧
+      (Gen.FactsC04IRp.useServiceIR srt sps insts).Perm (useService sps insts) :=
+  ⟨by decide, LoadBalance.useService_regenerated_from_source srt hsrt sps insts⟩
+
+example : Gen.FactsC04IRp.useServiceIR id ⟨"svc", ["v2"], [⟨"static", 0, []⟩], ""⟩
+    [⟨"i1", ["v1"], 0⟩, ⟨"i2", ["v1", "v2"], 5⟩] = [⟨"i2", 5, ["v1", "v2"]⟩] ∧
+  Gen.FactsC04IRb.newLoadBalancerIR "bogus" [] = ⟨.roundRobin, []⟩ ∧
+  Gen.FactsC04IRb.newWeightedIR [⟨"a", 2, []⟩, ⟨"b", -1, []⟩, ⟨"c", 3, []⟩] = ([⟨"a", 2, []⟩, ⟨"b", -1, []⟩, ⟨"c", 3, []⟩], 5) := by
+  decide
+
+/-! ### round robin across list replacement (Extension resil)
+
+The statement's fairness clause is about "the n servers"; when discovery replaces the list while
+selectors run there are several lists. The exact claim that holds: **fairness per generation** — the
+selections made on one published balancer (however they interleave with loads, selections on other
+generations and further publications) obtained that balancer's counter values `0, 1, …, k−1`, so position
+`j` of *its* list was chosen `⌊k/n⌋` or `⌈k/n⌉` times. Across generations nothing is promised (every new
+balancer restarts at position 0). -/
+theorem rr_fair_per_generation (policy : String) (ss0 : List Server) (evs : List Ev) (g : Nat) :
+    let outs := onGen g (run (Pool.init policy ss0) evs)
+    outs.map (·.counter) = List.range' 0 outs.length ∧
+    ∀ (n j : Nat), 0 < n → j < n →
+      (outs.filter (fun o => o.counter % n == j)).length = rrCount outs.length n j := by
+  simp only
+  have hc := gen_counters g evs (Pool.init policy ss0)
+  have h0 : ctr (Pool.init policy ss0) g = 0 := by
+    unfold ctr Pool.init
+    cases g <;> simp
+  rw [h0] at hc
+  refine ⟨hc, fun n j hn hj => ?_⟩
+  have : (onGen g (run (Pool.init policy ss0) evs)).filter (fun o => o.counter % n == j) =
+      (onGen g (run (Pool.init policy ss0) evs)).filter ((fun i => i % n == j) ∘ (·.counter)) := rfl
+  rw [this, ← List.length_map (f := (·.counter)), ← List.filter_map, hc, List.range'_eq_map_range]
+  simp only [Nat.zero_add, List.map_id']
+  exact range_filter_mod_length n j hn hj _
+
+/-- two generations interleaved: thread 0 stays on the old list (3 picks: counters 0,1,2), thread 1 on
+the new one (2 picks: counters 0,1) -/
+example :
+    let evs : List Ev := [.load 0, .pick 0 {}, .store [⟨"x", 0, []⟩, ⟨"y", 0, []⟩], .load 1, .pick 1 {}, .pick 0 {},
+      .pick 1 {}, .pick 0 {}]
+    (onGen 0 (run (Pool.init "" [⟨"a", 0, []⟩, ⟨"b", 0, []⟩]) evs)).map (·.counter) = [0, 1, 2] ∧
+    (onGen 1 (run (Pool.init "" [⟨"a", 0, []⟩, ⟨"b", 0, []⟩]) evs)).map (·.counter) = [0, 1] := by
+  decide
+
+/-! ### discovery report histories (Extension resil, second round) -/
+
+/-- **Selection uses the LAST reported tagged instances with their LAST weights.** After any history of
+discovery reports the balancer's list is `currentList` of the *last* report alone — nothing of an earlier
+report survives (no remembered weights, no remembered membership); so every selection returns a member
+of it, and weightedRandom never returns an instance whose last reported weight is not positive when some
+last reported weight is. (The *order* of the list is that of the map iteration: round-robin fairness is
+per generation and the hash policies are functions of (key, list) — a re-sorted list is a different but
+equally admissible generation; the judge compares lists as multisets.) -/
+theorem use_service_history_last_report (sps : PoolSpec) (rs : List (List Instance)) (r : List Instance)
+    (policy : String) (x : Sel) :
+    afterReports sps (rs ++ [r]) = currentList sps r ∧
+    (∀ s, choose (newLB policy (afterReports sps (rs ++ [r]))) x = .srv s → s ∈ currentList sps r) ∧
+    (∀ s, (∃ t ∈ currentList sps r, 0 < t.weight) →
+      choose ⟨.weightedRandom, afterReports sps (rs ++ [r])⟩ x = .srv s → 0 < s.weight) := by
+  have h : afterReports sps (rs ++ [r]) = currentList sps r := by
+    unfold afterReports
+    rw [List.foldl_append]
+    simp [use_service_spec]
+  refine ⟨h, ?_, ?_⟩
+  · intro s hs
+    have := choose_mem _ x hs
+    simpa [newLB, h] using this
+  · intro s hex hs
+    rw [h] at hs
+    exact weighted_never_zero _ x hex hs
+
+/-- an instance drained to weight 0 by the second report is not selected any more, whatever the first
+report said -/
+example :
+    let sps : PoolSpec := ⟨"svc", ["v1"], [], "weightedRandom"⟩
+    afterReports sps [[⟨"a", ["v1"], 5⟩, ⟨"b", ["v1"], 5⟩], [⟨"a", ["v1"], 0⟩, ⟨"b", ["v1"], 5⟩]] =
+      [⟨"a", 0, ["v1"]⟩, ⟨"b", 5, ["v1"]⟩] ∧
+    choose ⟨.weightedRandom, [⟨"a", 0, ["v1"]⟩, ⟨"b", 5, ["v1"]⟩]⟩ { rnd := 0 } = .srv ⟨"b", 5, ["v1"]⟩ := by
+  decide
+
 end EgVerif.C04
